@@ -200,7 +200,7 @@ PROPS = {
     ),
     "C07": dict(
         modules=["GraphSlam.Props.C07"],
-        theorem_files=["GraphSlam/Props/Tie/GraphPy.lean", "GraphSlam/Props/C07/*.lean", "GraphSlam/Props/E2E/Frame.lean", "GraphSlam/Theory/GaussNewton.lean"],
+        theorem_files=["GraphSlam/Props/Tie/GraphPy.lean", "GraphSlam/Props/C07/*.lean", "GraphSlam/Props/E2E/Frame.lean", "GraphSlam/Props/E2E/FrameMixed/*.lean", "GraphSlam/Theory/GaussNewton.lean"],
         scan_files=["GraphSlam/Generated/GraphPy.lean", "GraphSlam/Core/*.lean", "GraphSlam/Real/*.lean", "GraphSlam/Props/C09/*.lean", "GraphSlam/Props/C01/*.lean", "GraphSlam/Props/C10/*.lean", "GraphSlam/Model/Assembly.lean", "GraphSlam/Model/GraphIter.lean", "GraphSlam/Model/Run.lean", "GraphSlam/Model/Ctl.lean", "GraphSlam/Props/C06/*.lean"],
         graph_tie=True,
         corr=[("harness.entry", "layer_a", dict(only=["Edge", "Pose", "Util"], quick=25, thorough=400)), ("harness.entry", "assembly", dict(quick=40, thorough=1500)), ("harness.entry", "graphiter", dict(quick=60, thorough=2500)), ("harness.entry", "fullrun", dict(quick=40, thorough=1500))],
@@ -217,8 +217,8 @@ PROPS = {
         "(SE(2) unconditionally - also on the wrap - via the wrap-free error; SE(3) and R^n by uniqueness of the derivative), hence linearisation, contributions, accumulation, dense fill, solve and update commute with T: "
         "trajectory_frame_SE2 / _SE3 / _R2 / _R3 - for ANY solver and ANY number of iterations the k-iteration state of the transformed graph is T applied to the k-iteration state of the original (SE(2)/SE(3) graphs whose vertices are all poses; R^2/R^3 graphs with every edge class); "
         "and optimize_frame_SE2 / _SE3 / _R2 / _R3 on the model of a WHOLE optimize() call (Model.optimizeSolve, tied by tools/harness/fullrun.py): same report (every chi2, stopping index, converged), same flags, and the returned state is T applied to the returned state of the original. "
-        "Graphs mixing SE(n) poses with R^n landmark vertices: the pieces (error invariance, pose-vertex Jacobian invariance, T.(l+d)=T.l+R_T d, reparam_solves) are proved, their composition over the whole iteration is explored every run, not one theorem.",
-        level_note="For graphs with landmark *vertices* in SE(2)/SE(3) worlds the assembled system is conjugated by an orthogonal block matrix; the end-to-end statement there needs a solver hypothesis and is assembled from proved pieces.",
+        "Graphs MIXING SE(n) pose vertices with R^n landmark vertices (Props/E2E/FrameMixed/*.lean, for SE(2)+R^2 and SE(3)+R^3 with unit quaternions): the landmark-vertex Jacobian in the transformed frame is J R_T^T (R_T = the code's own jacobian_self_oplus_point_wrt_point T, proved orthogonal), error/chi2/pose-vertex Jacobian unchanged; system_conjugate: H' = P H P^T, b' = P b entrywise on Model.system for any fixed set (P = identity on pose blocks, R_T on landmark blocks, P P^T = 1); solution_transport: dx solves (H,-b) iff P dx solves (H',-b'), uniqueness transported; step_frame_mixed(_exact), trajectory_frame_mixed (any number of iterations) and optimize_frame_mixed (the WHOLE call: same report and flags, transformed returned state) under 'the solver is exact and every visited system of the original run has at most one solution'. World-frame R^n edges between two landmark vertices are excluded with a proved counterexample (they are translation- but not rotation-invariant: the property's own 'a translation for R^n graphs').",
+        level_note="For graphs with landmark *vertices* in SE(2)/SE(3) worlds the assembled system is conjugated by an orthogonal block matrix; the end-to-end statement there carries a solver hypothesis (exact + unique solvability of the visited systems); for all-pose graphs and R^n graphs it holds for ANY solver.",
     ),
     "C08": dict(
         modules=["GraphSlam.Props.C08"],
